@@ -5,6 +5,7 @@ mod geo;
 mod util;
 mod sc_nested;
 mod sc_ring;
+mod sc_bmoc;
 mod sc_proj;
 mod sc_zoc;
 
@@ -26,6 +27,10 @@ fn main() {
         "C02" => sc_nested::record_c02(&mut rng, count, &mut out),
         "C04" => sc_nested::record_c04(&mut rng, count, &mut out),
         "C14" => sc_nested::record_c14(&mut rng, count, &mut out),
+        "C07" => sc_bmoc::record_c07(&mut rng, count, &mut out),
+        "C08" => sc_bmoc::record_c08(&mut rng, count, &mut out),
+        "C09" => sc_bmoc::record_c09(&mut rng, count, &mut out),
+        "C15" => sc_bmoc::record_c15(&mut rng, count, &mut out),
         "C17" => sc_proj::record_c17(&mut rng, count, &mut out),
         "C18" => sc_zoc::record_c18(&mut rng, count, &mut out),
         "C10" => sc_ring::record_c10(&mut rng, count, &mut out),
@@ -39,6 +44,7 @@ fn main() {
       let input = args.get("in", "-");
       let rd: Box<dyn BufRead> = if input == "-" { Box::new(std::io::BufReader::new(std::io::stdin())) } else { Box::new(std::io::BufReader::new(std::fs::File::open(&input).expect("cannot open input"))) };
       let mut stats = sc_nested::ReplayStats::default();
+      let mut bregs = sc_bmoc::Regs::new();
       for l in rd.lines() {
         let l = l.unwrap();
         if l.trim().is_empty() { continue; }
@@ -48,6 +54,7 @@ fn main() {
           "C01" => sc_nested::replay_c01(&v, &mut out, &mut stats),
           "C04" => sc_nested::replay_c04(&v, &mut out, &mut stats),
           "C14" => sc_nested::replay_c14(&v, &mut out, &mut stats),
+          "BMOC" => sc_bmoc::replay_bmoc(&v, &mut out, &mut stats, &mut bregs),
           "C17" => sc_proj::replay_c17(&v, &mut out, &mut stats),
           "C18" => sc_zoc::replay_c18(&v, &mut out, &mut stats),
           "C10" => sc_ring::replay_c10(&v, &mut out, &mut stats),
